@@ -164,7 +164,8 @@ def concretise(c, rnd):
     if f == "scalar":
         a = c["attr"]
         other = 'y="1"' if a == "x" else 'x="1"'
-        return f'<svg>{r}<rect id="s" {a}="{ref}~{c["scalar"]}" {other} wh="2 1"/></svg>'
+        dl = {"none": "", "abs": " " + q(c["dval"]), "pct": f' {c["dval"]}%'}[c["dmode"]]
+        return f'<svg>{r}<rect id="s" {a}="{ref}~{c["scalar"]}{dl}" {other} wh="2 1"/></svg>'
     if f == "size":
         if c["mode"] == "same":
             v = ref
